@@ -47,3 +47,35 @@ V("C01", "exit-if-form", "S", "", R + "cli/lint.py",
 V("C01", "ninth-collection-ignored", "F", "R1", R + "report.py",
   "        self.read_errors: set[Path] = set()\n        self.file_reports: set[FileReport] = set()\n        self.licenses_without_extension",
   "        self.read_errors: set[Path] = set()\n        self.unlicensed_snippets: set[Path] = set()\n        self.file_reports: set[FileReport] = set()\n        self.licenses_without_extension")
+
+# ----------------------------------------------------------------- C03
+CFP = R + "covered_files.py"
+V("C03", "license-only-S", "F", "R1", CFP, 're.compile(r"^LICEN[CS]E([-\\.].*)?$")', 're.compile(r"^LICENSE([-\\.].*)?$")')
+V("C03", "license-suffix-any", "F", "R1", CFP, 're.compile(r".*\\.license$")', 're.compile(r".*license$")')
+V("C03", "makefile-ignored", "F", "R1", CFP, '    re.compile(r"^\\.hgtags$"),\n', '    re.compile(r"^\\.hgtags$"),\n    re.compile(r"^Makefile$"),\n')
+V("C03", "spdx-dot-unescaped-again", "F", "R1", CFP, 're.compile(r".*\\.spdx\\.(rdf|json|xml|ya?ml)$")', 're.compile(r".*\\.spdx.(rdf|json|xml|ya?ml)$")')
+V("C03", "copying-prefix", "F", "R1", CFP, 're.compile(r"^COPYING([-\\.].*)?$")', 're.compile(r"^COPYING.*$")')
+V("C03", "reuse-dir-unanchored", "F", "R1", CFP, 're.compile(r"^\\.reuse$")', 're.compile(r"^\\.reuse")')
+V("C03", "no-symlink-test", "F", "R2", CFP, "    if path.is_symlink():\n        _LOGGER.debug(\"skipping symlink '%s'\", path)\n        return True\n", "")
+V("C03", "size-le-1", "F", "R2", CFP, "if path.stat().st_size == 0:", "if path.stat().st_size <= 1:")
+V("C03", "submodule-flag-inverted", "F", "R2", CFP, "            not include_submodules\n            and vcs_strategy", "            include_submodules\n            and vcs_strategy")
+V("C03", "reuse-toml-always-included", "F", "R2", CFP, 'name != "REUSE.toml" or not include_reuse_tomls', 'name != "REUSE.toml"')
+V("C03", "vcs-ignore-only-files", "F", "R2", CFP, "    if vcs_strategy and vcs_strategy.is_ignored(path):\n        return True\n\n    return False",
+  "    if path.is_file() and vcs_strategy and vcs_strategy.is_ignored(path):\n        return True\n\n    return False")
+V("C03", "swap-include-flags", "F", "R4", R + "project.py",
+  "            directory,\n            include_submodules=self.include_submodules,\n            include_meson_subprojects=self.include_meson_subprojects,",
+  "            directory,\n            include_submodules=self.include_meson_subprojects,\n            include_meson_subprojects=self.include_submodules,")
+V("C03", "iterate-dirs-without-copy", "F", "R3", CFP, "for dir_ in list(dirs):", "for dir_ in dirs:")
+V("C03", "no-prune", "F", "R3", CFP, "                dirs.remove(dir_)\n", "")
+V("C03", "yield-ignored", "F", "R3", CFP, "                _LOGGER.debug(\"ignoring '%s'\", the_file)\n                continue\n", "                _LOGGER.debug(\"ignoring '%s'\", the_file)\n")
+V("C03", "drop-z", "F", "R5", R + "vcs.py", '            "--no-empty-directory",\n            # Separate output with \\0 instead of \\n.\n            "-z",\n', '            "--no-empty-directory",\n')
+V("C03", "file-loop-drops-vcs", "F", "R3", CFP,
+  "                include_reuse_tomls=include_reuse_tomls,\n                vcs_strategy=vcs_strategy,\n            ):\n                _LOGGER.debug(\"ignoring '%s'\", the_file)",
+  "                include_reuse_tomls=include_reuse_tomls,\n            ):\n                _LOGGER.debug(\"ignoring '%s'\", the_file)")
+V("C03", "tomls-without-flag", "F", "R4", R + "global_licensing.py", "                include_reuse_tomls=True,\n", "")
+V("C03", "annotate-own-walk", "F", "R4", R + "cli/annotate.py", "all_files = [path.resolve() for path in project.all_files()]",
+  "all_files = [path.resolve() for path in Path(project.root).rglob('*')]")
+V("C03", "vcs-test-first", "S", "", CFP,
+  "    if path.is_symlink():\n        _LOGGER.debug(\"skipping symlink '%s'\", path)\n        return True\n",
+  "    if vcs_strategy and vcs_strategy.is_ignored(path):\n        return True\n    if path.is_symlink():\n        _LOGGER.debug(\"skipping symlink '%s'\", path)\n        return True\n")
+V("C03", "parent-name", "S", "", CFP, '    parent_dir = parent_parts[-1] if len(parent_parts) > 0 else ""\n', '    parent_dir = path.parent.name\n')
